@@ -30,7 +30,10 @@ sys.path.insert(0, str(core.REPO))
 sys.path.insert(0, str(core.VERIF / "tools"))
 import translate_algorithms as TA  # noqa: E402
 
-GEN_DIR = core.BUILD / "proggen"
+import os  # noqa: E402
+
+# one directory per process: checks of different properties may run concurrently
+GEN_DIR = core.BUILD / "proggen" / str(os.getpid())
 
 INPUT_NAMES = ["A", "C"]
 SERIES_NAMES = ["S0", "S1", "T'", "R2", "Q3", "Z4"]
@@ -103,6 +106,11 @@ def random_program(rng, idx=0, max_series=6, allow3=True):
         starts[s] = rng.choice(["0", "0", "0", "none", "1", "in", "other"])
     # force at least one start-0 series
     starts[names[0]] = rng.choice(["0", "0", "in"])
+    # deletion stress: S0 (with start data) is used exactly once, by S1 which has no start data, so that
+    # evaluating S1 at order 0 runs the del_ of S0's zeroth-order element
+    stress = rng.random() < 0.3
+    if stress:
+        starts[names[1]] = rng.choice(["none", "other", "1"])
     adj_copy = {}
     order = []  # definition order incl. adjoint copies
     for s in names:
@@ -116,7 +124,12 @@ def random_program(rng, idx=0, max_series=6, allow3=True):
 
     # products
     products = []  # (factors, hermitian)
-    everything = inputs + order
+    if stress:
+        zero0.discard(names[0]); zero0.discard(names[0] + "†")
+        adj_copy.pop(names[0], None)
+        order = [t for t in order if t != names[0] + "†"]
+        pos = {s: i for i, s in enumerate(order)}
+    everything = inputs + [t for t in order if not (stress and t == names[0])]
     for _ in range(rng.randint(0, 3)):
         if adj_copy and rng.random() < 0.35:
             x = rng.choice(sorted(adj_copy))
@@ -157,7 +170,7 @@ def random_program(rng, idx=0, max_series=6, allow3=True):
             body.append("start = %s" % _q(rng.choice(inputs) + "_0"))
         elif st == "other":
             body.append("start = %s" % _q("nothing"))
-        refs = inputs + [t for t in order if pos[t] < pos[s]] + usable_products(s)
+        refs = inputs + [t for t in order if pos[t] < pos[s] and not (stress and t == names[0])] + usable_products(s)
         marker = rng.choice([None, None, "hermitian", "antihermitian"])
         marker_pos = 0 if rng.random() < 0.8 else 1
         nl = rng.randint(1, 3)
@@ -176,6 +189,9 @@ def random_program(rng, idx=0, max_series=6, allow3=True):
                     vals.append(e)
                 else:
                     vals.append("if %s:\n            %s" % (c, e))
+        if stress and s == names[1]:
+            vals = [_q(names[0]) if rng.random() < 0.6 else "%s + %s" % (_q(names[0]), g.atom(inputs, adj_ok=False))] + (vals[:1] if st != "1" else [])
+            marker = None
         if marker is not None:
             vals.insert(min(marker_pos, len(vals)), marker)
         lines_of[s] = body + vals
@@ -195,7 +211,8 @@ def random_program(rng, idx=0, max_series=6, allow3=True):
     source = "\n".join(src) + "\n"
     js = TA.translate_source(source)[0]
     return dict(name=fname, source=source, json=js, inputs=inputs, series=order,
-                products=[" @ ".join(fs) for fs, _ in products], outputs=outs)
+                products=[" @ ".join(fs) for fs, _ in products], outputs=outs,
+                stress_pair=(names[1], names[0]) if stress else None)
 
 
 def program_from_source(source):
@@ -250,9 +267,14 @@ def load_function(prog):
 
 def cleanup():
     if GEN_DIR.exists():
-        for p in GEN_DIR.glob("g_*.py"):
+        for p in list(GEN_DIR.glob("g_*.py")) + list(GEN_DIR.glob("__pycache__/*")):
             try:
                 p.unlink()
+            except OSError:
+                pass
+        for d in (GEN_DIR / "__pycache__", GEN_DIR):
+            try:
+                d.rmdir()
             except OSError:
                 pass
 
@@ -466,3 +488,18 @@ def creq(tb, name, idx):
 def coq_alg(js):
     txt = TA.emit_alg(js)
     return "(" + txt.split(":=", 1)[1].rstrip().rstrip(".") + ")"
+
+
+# ------------------------------------------------------------------ (de)serialisation for replay files
+
+
+def world_to_json(w):
+    return dict(nb=w["nb"], np=w["np"], gflags=list(w["gflags"]), rflags={k: list(v) for k, v in w["rflags"].items()},
+                hasoff=bool(w["hasoff"]), diag_custom=bool(w["diag_custom"]),
+                env=[[k[0], list(k[1]), [str(x) for x in v]] for k, v in sorted(w["env"].items())])
+
+
+def world_from_json(j):
+    return dict(nb=j["nb"], np=j["np"], gflags=list(j["gflags"]), rflags={k: list(v) for k, v in j["rflags"].items()},
+                hasoff=j["hasoff"], diag_custom=j["diag_custom"],
+                env={(e[0], tuple(e[1])): tuple(Fraction(x) for x in e[2]) for e in j["env"]})
